@@ -1,42 +1,39 @@
+import l0_common
+import read_common as rc
+
 ID = "C01"
-CLAIM = False  # work in progress: not yet in MANIFEST.json
-LEVEL = "other"
-COQ_TARGETS = ["Extract/ExtractCore.vo"]
-PROPS_FILES = []
-RUNS = [dict(name="read", harness="c01", driver="core", model_ml="core_model")]
-EXPLANATION = "work in progress"
-TRUSTED = []
-MODELLED = []
-ASSUMPTIONS = []
-LEVEL_TEXT = "wip"
-LEVEL_NOTE = "wip"
-TECHNIQUE = "Coq proof over an executable model + extracted-model/implementation differential run"
+LEVEL = "proof"
+generate = rc.generate
+COQ_TARGETS = ["Props/Properties_C01.vo", "Extract/ExtractCore.vo"] + l0_common.COQ_TARGETS
+PROPS_FILES = ["Props/Properties_C01.v"] + l0_common.PROPS_FILES
+RUNS = [rc.READ_RUN] + l0_common.RUNS
+EXPLANATION = ("Theorems: for every message (any number of segments, any lengths up to 2^32-8, any bytes) and any limits, "
+               "Root never panics; every accessor on a well-formed pointer returns a value or an error, returned pointers "
+               "are well-formed (their object lies inside its segment) and returned bytes are sub-lists of the supplied "
+               "segment; hence every op list over the handle pool (C01_run_safe) and the generic recursive walker "
+               "(C01_walk_safe) are panic-free. The model is tied to the code by the translator (L0 arithmetic) and by "
+               "running op lists + walker on the real accessors and on the extracted model; a Go panic is a violation "
+               "whether or not the model agrees.")
+TRUSTED = rc.CORE_TRUSTED
+MODELLED = rc.CORE_MODELLED + ["the recursive consumers Equal / Canonicalize / copy / text / pogs are covered for panic-freedom "
+                               "by their own properties' runs (C16-C20); here the generic walker stands for their recursion"]
+ASSUMPTIONS = ["segments <= 2^32-8 bytes; 64-bit platform; arguments in the documented domain"]
+LEVEL_TEXT = ("Proof (Coq, all inputs / all op lists) of panic-freedom and in-segment results for the read-side model, "
+              "with the L0 arithmetic regenerated from the Go source and re-checked on every run; model tied to the code by "
+              "a differential run over built, raw, mutated and cyclic messages.")
+LEVEL_NOTE = ("Trusted: Coq kernel, gotrans translator (validated against the real functions), extraction, harness. "
+              "Real stack/heap exhaustion of the Go runtime is not modelled; work is bounded by C02 instead.")
+TECHNIQUE = "Coq proof over an executable model + source-to-Coq translator for the arithmetic + differential run"
 DESIGN_REF = "DESIGN.md section 6, C01"
 
-
-def classify(run, case, impl, model):
-    io = impl.split(";")
-    mo = model.split(";")
-    ops = case.split()[4].split(";") if len(case.split()) > 4 else []
-    for k in range(min(len(io), len(mo))):
-        if io[k] != mo[k]:
-            op = ops[k].split(":")[0] if k < len(ops) else "?"
-            def c(x):
-                if x.startswith("P("): return "ptr"
-                if x[:1] in "NBX" : return x[:1]
-                if "!" in x and "(" in x or x == "panic": return "panic"
-                return x[:12]
-            return "%s/impl=%s/model=%s" % (op, c(io[k]), c(mo[k]))
-    for k in range(len(io)):
-        if io[k] == "panic" or "!" in io[k]:
-            op = ops[k].split(":")[0] if k < len(ops) else "?"
-            return "%s/impl=panic/model=agrees" % op
-    return "length"
+classify = rc.classify
 
 
 def impl_violation(run, case, impl):
-    return "panic" in impl or "!" in impl
+    return run == "read" and rc.has_panic(impl)
 
 
 def violates(run, case, impl, model):
-    return impl_violation(run, case, impl)
+    if run == l0_common.RUN_NAME:
+        return l0_common.violates(run, case, impl, model)
+    return rc.has_panic(impl)
